@@ -434,6 +434,10 @@ func runC17c(c c17cCase) *vlib.Outcome {
 	overlapped := false
 	var mu sync.Mutex
 	inFlightFail := 0
+	// (a checked request that is over before any CreateLocation has even
+	// begun cannot have found the location created)
+	var firstCreate time.Time
+	served := make([]string, n)
 	for i := 0; i < n; i++ {
 		wg.Add(1)
 		go func(i int) {
@@ -451,8 +455,12 @@ func runC17c(c c17cCase) *vlib.Outcome {
 					inFlightFail++
 					mu.Unlock()
 					_, err := s.GetSize(newCtx(), "shared")
+					done := time.Now()
 					mu.Lock()
 					inFlightFail--
+					if err == nil && firstCreate.IsZero() {
+						served[i] = fmt.Sprintf("request %d GetSize succeeded at %v, before any CreateLocation had started", j, done.Format("15:04:05.000000"))
+					}
 					mu.Unlock()
 					if err != nil {
 						atomic.AddInt32(&failed, 1)
@@ -463,6 +471,9 @@ func runC17c(c c17cCase) *vlib.Outcome {
 					mu.Lock()
 					if inFlightFail > 0 {
 						overlapped = true
+					}
+					if firstCreate.IsZero() {
+						firstCreate = time.Now()
 					}
 					mu.Unlock()
 					if _, err := s.CreateLocation(newCtx(), "shared"); err != nil {
@@ -488,6 +499,12 @@ func runC17c(c c17cCase) *vlib.Outcome {
 	wg.Wait()
 	if overlapped || atomic.LoadInt32(&failed) > 0 {
 		o.NonTrivial = true
+	}
+	for i, f := range served {
+		if f != "" {
+			o.Fail("UNCREATED_LOCATION_SERVED", "[linear=%v ttl=%v] client %d of %d %v: %s (existence checking is on)", c.Linear, ttl, i, n, c.Clients, f)
+			return o
+		}
 	}
 	for i, f := range fails {
 		if f != "" {
